@@ -11,7 +11,7 @@ Known, recorded, not flagged: arg-max ties of the inline-PA search and deflation
 from ..model import AnalysisError
 from ..terms import T, walk_terms
 from ..absint import TOP, Shape, is_bot
-from ..walk import (data_derives, ret_alts, call_parts, call_arg, is_call_to, const_val, NOVAL, strip_views, unwrap_gamma, axis_uses, norm_stmt,
+from ..walk import (inserted_singleton_axes, data_derives, ret_alts, call_parts, call_arg, is_call_to, const_val, NOVAL, strip_views, unwrap_gamma, axis_uses, norm_stmt,
                     callee_func)
 from ..nptable import index_items
 from .. import loop as LP
@@ -235,6 +235,8 @@ def check(run):
                             its = [const_val(i) if i.op != 'slice' else 'slice' for i in x.args[1].args[0]]
                             if its == [Ellipsis, None, 'slice', 'slice']:
                                 found = True
+                        if inserted_singleton_axes(x) == {-3}:
+                            found = True          # the same axis inserted elsewhere and moved into place
                         if is_call_to(x, 'numpy.reshape') and const_val(call_arg(x, 1).args[0][0] if call_arg(x, 1) is not None and call_arg(x, 1).op == 'tuple' else None) == 1:
                             found = True
             n_b += 1
